@@ -152,8 +152,16 @@ def handle (j : Json) : Except String Verdict := do
   -- outcome class first
   if model.cls != cls then
     let c05 := if cls == "ok" && firstBad.isSome && !anyMalformed then "fail" else "na"
-    return { agree := false, spec := [("C16", c16), ("C05", c05), ("C01", "na"), ("C03", "na"), ("C18", "na")], tags := tags,
-             sig := s!"build/class/model={model.cls}/impl={cls}",
+    -- the implementation returned arrays where the model did not: they must still be well formed (C03 speaks
+    -- about every array a successful serialization returns, whatever the model says about the input)
+    let c03 ← (if cls == "ok" && !anyMalformed then do
+        let iarrs ← (← getArr impl "ok").toList.mapM arrOfJson
+        let wfAll := iarrs.length == fields.length &&
+          (fields.zip iarrs).all (fun (f, a) => WF f a && (decodeAll a).length == rows.length)
+        pure (if wfAll then "na" else "fail")
+      else pure "na" : Except String String)
+    return { agree := false, spec := [("C16", c16), ("C05", c05), ("C01", "na"), ("C03", c03), ("C18", "na")], tags := tags,
+             sig := if c03 == "fail" then s!"build/C03/accepted-by-impl-only/model={model.cls}" else s!"build/class/model={model.cls}/impl={cls}",
              why := s!"outcome class: model {model.cls} ({repr model.ann}), implementation {cls}: {(impl.getObjVal? cls).toOption.getD Json.null}" }
   match model with
   | .error _ =>
